@@ -447,8 +447,12 @@ class C17(Property):
             if len(ops) > 1:
                 yield dict(case, ops=ops[:i] + ops[i + 1:])
 
-    def nontrivial(self, case):
-        return json.dumps(case, sort_keys=True, default=str)
+    def nontrivial_obs(self, case, obs):
+        if not isinstance(obs, dict) or not obs.get('events'):
+            return None
+        rejected = any(status == 'invalid' for op in case['ops'] if op[0] == 'record' for status, _et, _exp in classify_all(case, op[1]))
+        rejected = rejected or any(c is not None for c in obs.get('calls', []))
+        return json.dumps(case, sort_keys=True, default=str) if rejected else None
 
     def sample_view(self, case):
         return {'calls': [op[0] for op in case['ops']], 'ignore_invalid': case['ignore_invalid'], 'fallback': case['fallback']}
